@@ -14,6 +14,7 @@ import argparse
 import importlib
 import json
 import os
+import signal
 import sys
 import time
 import traceback
@@ -120,7 +121,24 @@ def main():
             for b in t1bad[:5]:
                 broken.append({'tie': 'L0 regex semantics vs CPython re', 'case': b})
 
-        mod.run(ctx)
+        # exploration, under a time limit: when the tree is broken a library call may take arbitrarily long
+        limit = int(os.environ.get('VERIF_TIME_LIMIT', 5400 if ctx.thorough else 600))
+
+        def on_alarm(*_a):
+            raise common.StopCheck()
+        signal.signal(signal.SIGALRM, on_alarm)
+        signal.alarm(limit)
+        timed_out = False
+        try:
+            mod.run(ctx)
+        except common.StopCheck:
+            timed_out = not rep.violations
+            rep.extra['stopped_early'] = 'time limit' if timed_out else 'enough failing inputs'
+        finally:
+            signal.alarm(0)
+        if timed_out:
+            print(f'time limit of {limit} s reached with no violation recorded', file=sys.stderr)
+            return 2
 
         for b in ctx.corr_bad[:5]:
             broken.append({'tie': 'correspondence model vs implementation', 'case': b})
